@@ -31,7 +31,12 @@ func complementTable(c *Ctx, rule string) (map[rune]rune, token.Pos, bool) {
 		ok = t.Op == "lookup" && t.Name == "" && t.Args[0].Op == "global" && t.Args[1].isParam(0)
 	}
 	if !ok {
-		c.bad(rule, "ComplementBase=table[base]", cb.Pos(), "ComplementBase is expected to be a plain lookup of its argument in a package-level table; got "+short(fmt.Sprint(t)))
+		// a switch over the argument with constant cases and constant results is the same table
+		if m, okS := tableFromSwitch(cb); okS {
+			c.ok(rule, "ComplementBase=table[base]", cb.Pos(), fmt.Sprintf("a switch with %d constant cases", len(m)))
+			return m, cb.Pos(), true
+		}
+		c.undecided(rule, "ComplementBase=table[base]", cb.Pos(), "ComplementBase is neither a lookup in a package-level literal table nor a switch of constants; got "+short(fmt.Sprint(t)))
 		return nil, 0, false
 	}
 	c.ok(rule, "ComplementBase=table[base]", cb.Pos(), "returns "+t.Args[0].Name+"[basePair]")
@@ -39,18 +44,18 @@ func complementTable(c *Ctx, rule string) (map[rune]rune, token.Pos, bool) {
 	p := w.pkg("transform")
 	v := pkgVar(p, name)
 	if v == nil {
-		c.missing(rule, "complement table", "package variable "+name)
+		c.missingHelper(rule, "complement table", "package variable "+name)
 		return nil, 0, false
 	}
 	init := varInit(p, v)
 	if init == nil {
-		c.bad(rule, "complement table", v.Pos(), "complement table is not initialised by one composite literal or is reassigned")
+		c.undecided(rule, "complement table", v.Pos(), "complement table is not initialised by one composite literal or is reassigned")
 		return nil, 0, false
 	}
 	av := evalAST(p, init)
 	m, ok := av.runeMap()
 	if !ok {
-		c.bad(rule, "complement table", av.Pos, "complement table is not a literal of constant rune pairs (or has a duplicate key)")
+		c.undecided(rule, "complement table", av.Pos, "complement table is not a literal of constant rune pairs (or has a duplicate key)")
 		return nil, 0, false
 	}
 	// the table must not be written anywhere else in the module
@@ -100,7 +105,9 @@ func globalWriters(c *Ctx, rel, name string) []string {
 }
 
 // descendingFill recognises "result[len-1-k] = k-th rune of S" and returns S:
-//   n := len(S'); dst := make([]rune, n); for _, r := range S { n--; dst[n] = r }; return string(dst)
+//
+//	n := len(S'); dst := make([]rune, n); for _, r := range S { n--; dst[n] = r }; return string(dst)
+//
 // (S' must be S). Also accepts the two-index swap idiom? – not present in the repo; reported as unrecognised.
 func descendingFill(tb *TermBuilder, f *ssa.Function) (*Term, string) {
 	rets := returnsOf(f)
@@ -294,12 +301,15 @@ func ruleC11(c *Ctx) {
 	}
 
 	// ---- TERM
+	compl := "call[strings.Map](func[poly/transform.ComplementBase], param[0])"
 	if f := w.fn("transform", "Complement"); f != nil {
 		c.useFn(f)
-		tb := newTB(f)
-		r := returnsOf(f)
-		good := len(r) == 1 && tb.T(r[0].Results[0]).String() == "call[strings.Map](func[poly/transform.ComplementBase], param[0])"
-		c.check(good, "TERM", "Complement=Map(ComplementBase)", f.Pos(), "Complement(s) = strings.Map(ComplementBase, s)", "Complement is not strings.Map(ComplementBase, s)")
+		t, _, ok1 := singleReturnTerm(f, 0)
+		if ok1 {
+			c.cmpTerm("TERM", "Complement=Map(ComplementBase)", f.Pos(), t, compl, "Complement(s) = strings.Map(ComplementBase, s)", "Complement is not the pointwise map of ComplementBase")
+		} else {
+			c.undecided("TERM", "Complement=Map(ComplementBase)", f.Pos(), "several returns")
+		}
 	} else {
 		c.missing("TERM", "Complement", "transform.Complement")
 	}
@@ -307,32 +317,31 @@ func ruleC11(c *Ctx) {
 		c.useFn(f)
 		tb := newTB(f)
 		src, why := descendingFill(tb, f)
-		c.check(src != nil && src.isParam(0), "TERM", "Reverse=reversal(s)", f.Pos(), "fills a len(s) rune slice from the back with the runes of s in order", "Reverse is not a recognised exact reversal: "+why)
+		st := unknown
+		if src != nil {
+			st = holds
+			if !src.isParam(0) {
+				st = stateOf(false, nil, src)
+			}
+		}
+		c.judge(st, "TERM", "Reverse=reversal(s)", f.Pos(), "fills a len(s) rune slice from the back with the runes of s in order", "Reverse is not a recognised exact reversal of its argument: "+why)
 	} else {
 		c.missing("TERM", "Reverse", "transform.Reverse")
 	}
 	if f := w.fn("transform", "ReverseComplement"); f != nil {
 		c.useFn(f)
-		tb := newTB(f)
-		src, why := descendingFill(tb, f)
-		good := src != nil && src.String() == "call[strings.Map](func[poly/transform.ComplementBase], param[0])"
-		if src != nil && !good {
-			why = "reverses " + short(src.String()) + ", want the complemented input"
-		}
-		c.check(good, "TERM", "ReverseComplement=reversal(Map(ComplementBase,s))", f.Pos(), "reverses the pointwise complement of the whole input (no special cases)", "ReverseComplement is not exactly reversal∘complement: "+why)
+		st, why := rcState(w)
+		c.judge(st, "TERM", "ReverseComplement=reversal(Map(ComplementBase,s))", f.Pos(), "reverses the pointwise complement of the whole input (no special cases)", "ReverseComplement is not exactly reversal∘complement: "+why)
 	} else {
 		c.missing("TERM", "ReverseComplement", "transform.ReverseComplement")
 	}
 	if f := w.fn("checks", "IsPalindromic"); f != nil {
 		c.useFn(f)
-		tb := newTB(f)
-		r := returnsOf(f)
-		good := len(r) == 1 && tb.T(r[0].Results[0]).String() == "binop[==](call[poly/transform.ReverseComplement](param[0]), param[0])"
-		c.check(good, "TERM", "IsPalindromic=(s==RC(s))", f.Pos(), "IsPalindromic(s) = (s == transform.ReverseComplement(s))", "IsPalindromic is not s == ReverseComplement(s)")
+		st, why := palindromeState(f)
+		c.judge(st, "TERM", "IsPalindromic=(s==RC(s))", f.Pos(), "IsPalindromic(s) = (s == transform.ReverseComplement(s))", why)
 	} else {
 		c.missing("TERM", "IsPalindromic", "checks.IsPalindromic")
 	}
-
 	// ---- TABLE-IUPAC + SHAPE
 	av := w.fn("transform/variants", "AllVariantsIUPAC")
 	if av == nil {
@@ -351,15 +360,30 @@ func ruleC11(c *Ctx) {
 		}
 	})
 	if lk == nil {
-		c.bad("SHAPE", "lookup(ToUpper(seq)[i])", av.Pos(), "no comma-ok table lookup keyed by the runes of strings.ToUpper(seq) found (unrecognised shape)")
+		c.undecided("SHAPE", "lookup(ToUpper(seq)[i])", av.Pos(), "no comma-ok table lookup keyed by the runes of strings.ToUpper(seq) found")
+		rawU := rawParamUses(tb, av, 0, "strings.ToUpper")
+		if len(rawU) > 0 {
+			c.bad("SHAPE", "DEPEND: raw input only under ToUpper", av.Pos(), "the raw (not upper-cased) input is consulted by "+strings.Join(rawU, ", ")+": lower-case codes are treated differently from upper-case ones")
+		}
 		return
 	}
 	c.ok("SHAPE", "lookup(ToUpper(seq)[i])", lk.Pos(), "each rune of the upper-cased input is looked up (comma-ok) in the code table")
-	tabI, problems := readMapUpdates(tb, av, lk.X)
-	if _, isMake := lk.X.(*ssa.MakeMap); !isMake {
-		problems = append(problems, "code table is not a local literal")
+	rawU := rawParamUses(tb, av, 0, "strings.ToUpper")
+	c.check(len(rawU) == 0, "SHAPE", "DEPEND: raw input only under ToUpper", av.Pos(), "letter case cannot influence the expansion", "the raw (not upper-cased) input is consulted by "+strings.Join(rawU, ", ")+": lower-case codes are treated differently from upper-case ones")
+	var tabI map[rune][]rune
+	var problems []string
+	if _, isMake := lk.X.(*ssa.MakeMap); isMake {
+		tabI, problems = readMapUpdates(tb, av, lk.X)
+	} else if gt := tb.T(lk.X); gt.Op == "global" {
+		tabI, problems = readGlobalRuneLists(w, gt)
+	} else {
+		problems = append(problems, "code table is neither a local nor a package-level literal")
 	}
-	c.check(len(problems) == 0, "TABLE-IUPAC", "literal", lk.Pos(), "code table is a literal of constant rune lists", strings.Join(problems, "; "))
+	if len(problems) > 0 {
+		c.undecided("TABLE-IUPAC", "literal", lk.Pos(), strings.Join(problems, "; "))
+		return
+	}
+	c.ok("TABLE-IUPAC", "literal", lk.Pos(), "code table is a literal of constant rune lists")
 	var diffs, dups []string
 	for _, ch := range iupac15 {
 		got, has := tabI[ch]
@@ -431,7 +455,20 @@ func ruleC11(c *Ctx) {
 			prodCall = cl
 		}
 	})
-	c.check(missOK, "SHAPE", "unknown letter -> error", av.Pos(), "the miss branch of the lookup returns a non-nil error", "no error return on the miss branch of the code-table lookup")
+	missSt := holds
+	if !missOK {
+		missSt = unknown
+		for _, r := range returnsOf(av) {
+			if len(r.Results) == 2 {
+				pc := pathCond(tb, av.Blocks[0], r.Block()).String()
+				e := tb.T(r.Results[1])
+				if strings.Contains(pc, "!(extract[1](lookup[,ok]") && e.Op == "const" {
+					missSt = broken
+				}
+			}
+		}
+	}
+	c.judge(missSt, "SHAPE", "unknown letter -> error", av.Pos(), "the miss branch of the lookup returns a non-nil error", "the miss branch of the code-table lookup returns a nil error")
 	if prodCall != nil {
 		arg := tb.T(prodCall.Call.Args[0])
 		apps := topAppendSites(arg)
@@ -444,7 +481,11 @@ func ruleC11(c *Ctx) {
 				hitOK = false
 			}
 		}
-		c.check(hitOK, "SHAPE", "one list per position, in order", prodCall.Pos(), "each position's expansion list is appended once, in input order, and all are passed to the product", "the lists handed to the product are not exactly one expansion list per input position in order")
+		hitSt := holds
+		if !hitOK {
+			hitSt = unknown
+		}
+		c.judge(hitSt, "SHAPE", "one list per position, in order", prodCall.Pos(), "each position's expansion list is appended once, in input order, and all are passed to the product", "the lists handed to the product are not exactly one expansion list per input position in order")
 		// result rows converted in order
 		var succ *ssa.Return
 		for _, r := range returnsOf(av) {
@@ -460,10 +501,14 @@ func ruleC11(c *Ctx) {
 				good = apps[0].Elem.String() == "conv[string](each("+tb.T(prodCall).String()+"))"
 			}
 		}
-		c.check(good, "SHAPE", "result=each product row as string", av.Pos(), "every row of the product is returned as a string, in order", "the returned list is not exactly string(row) for each row of the product (unrecognised shape)")
+		rowSt := holds
+		if !good {
+			rowSt = unknown
+		}
+		c.judge(rowSt, "SHAPE", "result=each product row as string", av.Pos(), "every row of the product is returned as a string, in order", "the returned list is not exactly string(row) for each row of the product (unrecognised shape)")
 		checkOdometer(c, w.fn("transform/variants", "cartRune"))
 	} else {
-		c.bad("SHAPE", "product call", av.Pos(), "AllVariantsIUPAC does not call the Cartesian product helper (unrecognised shape)")
+		c.undecided("SHAPE", "product call", av.Pos(), "AllVariantsIUPAC does not call the Cartesian product helper")
 	}
 }
 
@@ -471,7 +516,7 @@ func ruleC11(c *Ctx) {
 // A counted loop "for i := len(X)-1; i >= 0; i--" that increments choice[i], breaks when choice[i] < len(list[i]), else resets it.
 func checkOdometer(c *Ctx, f *ssa.Function) {
 	if f == nil {
-		c.missing("SHAPE", "ODOMETER", "variants.cartRune")
+		c.missingHelper("SHAPE", "ODOMETER", "variants.cartRune")
 		return
 	}
 	c.useFn(f)
@@ -541,5 +586,149 @@ func checkOdometer(c *Ctx, f *ssa.Function) {
 			}
 		}
 	}
-	c.check(found >= 1 && good == found, "SHAPE", "ODOMETER covers positions len-1..0", pos, "the carry loop advances every position, including position 0", why)
+	odSt := holds
+	if found == 0 {
+		odSt = unknown
+	} else if good != found {
+		odSt = broken
+	}
+	c.judge(odSt, "SHAPE", "ODOMETER covers positions len-1..0", pos, "the carry loop advances every position, including position 0", why)
+}
+
+// tableFromSwitch reads func(r rune) rune written as a switch of constant cases returning constants.
+func tableFromSwitch(f *ssa.Function) (map[rune]rune, bool) {
+	if len(f.Params) != 1 {
+		return nil, false
+	}
+	tb := newTB(f)
+	m := map[rune]rune{}
+	for _, a := range resultAlts(tb, f, 0) {
+		// expand a merged result
+		vals := []*Term{a.T}
+		if a.T.Op == "phi" {
+			return nil, false
+		}
+		k, isC := vals[0].constInt()
+		var keys []rune
+		neg := 0
+		for _, at := range a.Cond.atoms() {
+			if at.Atom.isBin("==") {
+				for i := 0; i < 2; i++ {
+					if at.Atom.Args[i].isParam(0) {
+						if kk, ok := at.Atom.Args[1-i].constInt(); ok {
+							if at.Neg {
+								neg++
+							} else if !at.Disj {
+								keys = append(keys, rune(kk))
+							} else {
+								keys = append(keys, rune(kk))
+							}
+						}
+					}
+				}
+			}
+		}
+		if len(keys) == 0 {
+			// default branch: must yield the zero rune (like a missing map key) or the input
+			if isC && k == 0 {
+				continue
+			}
+			return nil, false
+		}
+		if !isC {
+			return nil, false
+		}
+		for _, key := range keys {
+			if _, dup := m[key]; dup {
+				return nil, false
+			}
+			m[key] = rune(k)
+		}
+	}
+	return m, len(m) > 0
+}
+
+// palindromeState: IsPalindromic(s) must be s == ReverseComplement(s) on every path; a fast path that
+// answers from the length alone is wrong for odd lengths (GANTC) – only the empty string may be special.
+func palindromeState(f *ssa.Function) (int, string) {
+	tb := newTB(f)
+	want := "binop[==](call[poly/transform.ReverseComplement](param[0]), param[0])"
+	alts := resultAlts(tb, f, 0)
+	if len(alts) == 0 {
+		return unknown, "no result"
+	}
+	st := holds
+	why := ""
+	for _, a := range alts {
+		switch {
+		case a.T.String() == want:
+		case a.T.Op == "const":
+			empty := false
+			for _, at := range a.Cond.atoms() {
+				s := at.Atom.String()
+				if !at.Neg && (s == "binop[==](call[builtin:len](param[0]), const[0])" || s == `binop[==](const[""], param[0])`) {
+					empty = true
+				}
+			}
+			if !empty {
+				return broken, "a path answers " + a.T.Name + " under " + short(a.Cond.String()) + " without comparing the sequence with its reverse complement"
+			}
+		default:
+			st = unknown
+			why = "IsPalindromic is " + short(a.T.String())
+			if len(opaqueParts(a.T, vocabOf(want))) == 0 && localDiff(a.T, want) {
+				return broken, "IsPalindromic compares " + short(a.T.String()) + "; want s == ReverseComplement(s)"
+			}
+		}
+	}
+	return st, why
+}
+
+// readGlobalRuneLists reads a package-level map[rune][]rune / map[rune]string literal.
+func readGlobalRuneLists(w *World, gt *Term) (map[rune][]rune, []string) {
+	g, ok := gt.V.(*ssa.Global)
+	if !ok || g.Pkg == nil {
+		return nil, []string{"not a package-level variable"}
+	}
+	var pk = w.Pkgs[g.Pkg.Pkg.Path()]
+	v := pkgVar(pk, g.Name())
+	if v == nil {
+		return nil, []string{"variable not found"}
+	}
+	init := varInit(pk, v)
+	if init == nil {
+		return nil, []string{"not initialised by one literal"}
+	}
+	av := evalAST(pk, init)
+	if av.Kind != "comp" {
+		return nil, []string{"not a composite literal"}
+	}
+	out := map[rune][]rune{}
+	for _, e := range av.Elts {
+		if e.Key == nil || e.Key.Kind != "int" {
+			return nil, []string{"non-constant key"}
+		}
+		var lst []rune
+		switch e.Val.Kind {
+		case "string":
+			lst = []rune(e.Val.Str)
+		case "comp":
+			for _, x := range e.Val.Elts {
+				if x.Val.Kind != "int" {
+					return nil, []string{"non-constant element"}
+				}
+				lst = append(lst, rune(x.Val.Int))
+			}
+		default:
+			return nil, []string{"unrecognised value for " + string(rune(e.Key.Int))}
+		}
+		if _, dup := out[rune(e.Key.Int)]; dup {
+			return nil, []string{"duplicate key"}
+		}
+		out[rune(e.Key.Int)] = lst
+	}
+	if ws := globalWriters(&Ctx{W: w}, strings.TrimPrefix(strings.TrimPrefix(g.Pkg.Pkg.Path(), modPath), "/"), g.Name()); len(ws) > 0 {
+		return nil, []string{"table written at run time"}
+	}
+	return out, nil
 }
